@@ -45,14 +45,14 @@ def chunks(seq, n):
         yield seq[i:i + n]
 
 
-def judge_parallel(events, procs=8, chunk=2000, module="Judge"):
+def judge_parallel(events, procs=8, chunk=2000, module="Judge", timeout=300):
     """Split a long event list over several TLC processes (each single-worker)."""
     from concurrent.futures import ThreadPoolExecutor
     runs = []
 
     def one(evs):
         jr = JudgeRun(module)
-        jr.judge(evs)
+        jr.judge(evs, timeout=timeout)
         return jr
 
     # balance: biggest events first, dealt round-robin over the chunks
